@@ -5,6 +5,7 @@ package main
 
 import (
 	"encoding/hex"
+	"encoding/json"
 	"fmt"
 	"math"
 	"reflect"
@@ -109,11 +110,17 @@ func (a *AV) Pretty() string {
 	case AVStr:
 		return strconv.Quote(a.S)
 	case AVStringer:
+		if a.ID == 0 {
+			return fmt.Sprintf("json.Number(%q)", a.S)
+		}
 		if a.S == "<nil>" {
 			return fmt.Sprintf("Stringer#%d(typed nil pointer, String() returns \"<nil>\")", a.ID)
 		}
 		return fmt.Sprintf("Stringer#%d(%q)", a.ID, a.S)
 	case AVStringerPanic:
+		if a.ID >= 1000 {
+			return fmt.Sprintf("Stringer#%d(String() panics with the Stringer itself as panic value)", a.ID)
+		}
 		return fmt.Sprintf("Stringer#%d(panics)", a.ID)
 	case AVOther:
 		return "other:" + otherNames[a.Tag%len(otherNames)]
@@ -192,6 +199,15 @@ func (t strPanic) String() string {
 	panic("String() of a user value panics")
 }
 
+// a Stringer that panics with ITSELF as the panic value: whoever formats the recovered value with fmt calls String()
+// again, and fmt re-panics on the nested panic (ids >= 1000 denote this variant, so that a replayed prototype keeps it)
+type strSelfPanic struct{ id int }
+
+func (t strSelfPanic) String() string {
+	callLog = append(callLog, t.id)
+	panic(t)
+}
+
 type namedMap map[string]interface{}
 type someStruct struct {
 	A int
@@ -256,11 +272,17 @@ func (a *AV) Go(shared map[*AV]interface{}) interface{} {
 	case AVStr:
 		return a.S
 	case AVStringer:
+		if a.ID == 0 {
+			return json.Number(a.S) // a Stringer of the standard library; its String() calls cannot be logged (id 0 is never printed)
+		}
 		if a.S == "<nil>" {
 			return mkNilSafe(a.ID) // a typed nil pointer whose String() accepts the nil receiver, like (*big.Int)(nil)
 		}
 		return strOK{a.ID, a.S}
 	case AVStringerPanic:
+		if a.ID >= 1000 {
+			return strSelfPanic{a.ID}
+		}
 		return strPanic{a.ID}
 	case AVOther:
 		return mkOther(a.Tag)
@@ -379,7 +401,16 @@ func snapshot(v interface{}, ids map[uintptr]int, sb *strings.Builder) {
 	case chan int:
 		fmt.Fprintf(sb, "chan:%d", len(x))
 	default:
-		fmt.Fprintf(sb, "%T:%v", v, v)
+		switch x := v.(type) {
+		case strOK:
+			fmt.Fprintf(sb, "strOK:%d:%q", x.id, x.s) // never format a test Stringer with %v: that would call (and log) String()
+		case strPanic:
+			fmt.Fprintf(sb, "strPanic:%d", x.id)
+		case strSelfPanic:
+			fmt.Fprintf(sb, "strSelfPanic:%d", x.id)
+		default:
+			fmt.Fprintf(sb, "%T:%s", v, panicTextV(v))
+		}
 	}
 }
 
@@ -387,4 +418,14 @@ func snap(v interface{}) string {
 	var sb strings.Builder
 	snapshot(v, map[uintptr]int{}, &sb)
 	return sb.String()
+}
+
+// panicTextV: %v of an arbitrary value, guarded (a value's own String() may panic in a way fmt does not absorb)
+func panicTextV(v interface{}) (s string) {
+	defer func() {
+		if recover() != nil {
+			s = "<unprintable>"
+		}
+	}()
+	return fmt.Sprintf("%v", v)
 }
